@@ -559,6 +559,11 @@ func (c Component) HashInto(h hash.Hash) {
 	tbuf := []byte{0, 0, 0, 0, 0, 0, 0, 0}
 	binary.BigEndian.PutUint64(tbuf, uint64(c.Typ))
 	h.Write(tbuf)
+	// The value length is hashed as well: with type and value only, distinct names whose
+	// components concatenate to the same bytes (/a/b and the single component
+	// "a" + <8-byte type> + "b") fed identical bytes and collided in every table keyed by hash.
+	binary.BigEndian.PutUint64(tbuf, uint64(len(c.Val)))
+	h.Write(tbuf)
 	h.Write(c.Val)
 }
 
